@@ -309,12 +309,41 @@ fn shape(vs: &[V]) -> String {
     "atoms".into()
 }
 
+/// A reader that hands out at most `step` bytes per `read` call (what a socket, `BufReader` or `chain` may do).
+struct Dribble<'a> {
+    data: &'a [u8],
+    pos: usize,
+    step: usize,
+}
+
+impl<'a> std::io::Read for Dribble<'a> {
+    fn read(&mut self, buf: &mut [u8]) -> std::io::Result<usize> {
+        let n = buf.len().min(self.step).min(self.data.len() - self.pos);
+        buf[..n].copy_from_slice(&self.data[self.pos..self.pos + n]);
+        self.pos += n;
+        Ok(n)
+    }
+}
+
+/// Decodes through a `Cursor` and through a short-read reader; the two must agree (the decoder is generic over
+/// `Read`, and a conformant encoding does not stop being one because it arrives in pieces).
 fn lib_decode(bytes: &[u8]) -> Result<Result<(Vec<V>, u64), String>, String> {
     guarded(|| {
         let mut c = Cursor::new(bytes);
-        match rml_amf0::deserialize(&mut c) {
+        let first = match rml_amf0::deserialize(&mut c) {
             Ok(v) => Ok((r3::from_lib_seq(&v), c.position())),
             Err(e) => Err(format!("{:?}", e)),
+        };
+        let mut d = Dribble { data: bytes, pos: 0, step: if bytes.len() <= 4096 { 1 } else { 4093 } };
+        let second = match rml_amf0::deserialize(&mut d) {
+            Ok(v) => Ok((r3::from_lib_seq(&v), d.pos as u64)),
+            Err(e) => Err(format!("{:?}", e)),
+        };
+        match (&first, &second) {
+            (Ok(a), Ok(b)) if a == b => first,
+            (Err(_), Err(_)) => first,
+            _ => Err(format!("READER-DEPENDENT RESULT: through a Cursor {:?}, through a reader that returns at most {} bytes per read call {:?}",
+                first.as_ref().map(|x| x.1).map_err(|e| e.chars().take(80).collect::<String>()), d.step, second.as_ref().map(|x| x.1).map_err(|e| e.chars().take(80).collect::<String>()))),
         }
     })
 }
